@@ -34,7 +34,7 @@ func TestC11(t *testing.T) {
 		bud := model.NewBudget(gen.Quantum)
 		s := c.new()
 		var entries []wEntry
-		mode := rapid.SampledFrom([]string{"single-light", "several-light", "reweighted-down", "heavy", "heavy", "mixed"}).Draw(t, "mode")
+		mode := rapid.SampledFrom([]string{"single-light", "several-light", "reweighted-down", "reweighted-then-more", "heavy", "heavy", "mixed"}).Draw(t, "mode")
 		cl.logf("C11 %s mode=%s", c, mode)
 		cl.label("mode:" + mode)
 		cl.label("mapping:" + c.spec.Kind)
@@ -73,6 +73,40 @@ func TestC11(t *testing.T) {
 				entries[i].w *= f
 			}
 			bud.P += k
+			cl.label("reached-by-reweight")
+		case "reweighted-then-more":
+			// weighted adds, a reweight by any dyadic factor, then more weighted adds (so that reweighted bins end up
+			// in the interior of the rank order)
+			n := rapid.IntRange(1, 20).Draw(t, "n")
+			for i := 0; i < n; i++ {
+				v, _, _ := d.value(t, prof)
+				w := gen.LightWeight().Draw(t, "w")
+				total += w
+				add(v, w)
+			}
+			f := gen.ReweightFactor().Draw(t, "factor")
+			if !bud.FitsAfterFactor(total+64, f.F, f.Shift) {
+				f = gen.Factor{F: 0.5, Shift: 1}
+			}
+			cl.logf("Reweight(%v)", f.F)
+			if err := s.Reweight(f.F); err != nil {
+				t.Fatalf("C11: Reweight(%v): %v", f.F, err)
+			}
+			for i := range entries {
+				entries[i].w *= f.F
+			}
+			total *= f.F
+			bud.P += f.Shift
+			m2 := rapid.IntRange(1, 10).Draw(t, "more")
+			for i := 0; i < m2; i++ {
+				v, _, _ := d.value(t, prof)
+				w := gen.LightWeight().Draw(t, "w")
+				if !bud.Fits(total + w) {
+					break
+				}
+				total += w
+				add(v, w)
+			}
 			cl.label("reached-by-reweight")
 		default:
 			n := rapid.IntRange(1, 60).Draw(t, "n")
